@@ -1,14 +1,17 @@
 #!/bin/bash
 # run every check of one tier on /repo's working tree, one after the other; summary on stdout
 tier=${1:-quick}
-cd /verif
+cd "$(dirname "$(readlink -f "$0")")"
+V=$(pwd)
+mkdir -p $V/build
 rc_all=0
 for p in C01 C02 C03 C04 C05 C06 C07 C08 C09 C10 C11 C12 C13 C14 C15 C16 C17 C18 C19 C20; do
   s=$(date +%s)
-  python3 run.py check $p --tier $tier > /verif/build/log-$tier-$p.txt 2>&1
+  python3 run.py check $p --tier $tier > $V/build/log-$tier-$p.txt 2>&1
   rc=$?
   e=$(( $(date +%s) - s ))
-  echo "$p rc=$rc ${e}s $(grep -c -E '^(VIOLATION|KNOWN-FINDING)' /verif/build/log-$tier-$p.txt) alarm-lines"
+  if [ "$tier" = thorough ]; then mkdir -p $V/thorough_runs; cp $V/evidence/$p.json $V/thorough_runs/$p.json; fi
+  echo "$p rc=$rc ${e}s $(grep -c -E '^(VIOLATION|KNOWN-FINDING)' $V/build/log-$tier-$p.txt) alarm-lines"
   [ $rc -ne 0 ] && rc_all=1
 done
 exit $rc_all
